@@ -1,7 +1,7 @@
 (* C02, dbesm part.  Statements only; proofs in Proofs/SmcDbesmProofs.v.
    Query catalogue proved here: GETSTATUS / GETCOMP / GETFIRM / ReadDIAG BOARD n (n = 1..4), GETCFG,
-   ReadALLDIAG.  PARTIAL: the GETDBE* queries are covered by correspondence and oracle only. *)
-From DS Require Import Base.Prelude Model.SmcBase Model.SmcDbesm Proofs.SmcDbesmProofs.
+   ReadALLDIAG, GETDBEATT / GETDBEAMP / GETDBEEQ / GETDBEBPF <any output name>. *)
+From DS Require Import Base.Prelude Model.SmcBase Model.SmcDbesm Proofs.SmcDbesmProofs Proofs.SmcDbesmMore.
 
 (* from every idle state a complete line is answered by exactly the handler's outcome (C03 part);
    so the statements below are about the handlers, for EVERY device state with four boards - any
@@ -54,3 +54,9 @@ Example C02_dbesm_catalogue_decodes :
   decode (drop_last ($"DBE ReadDIAG BOARD 1" ++ [CR])) = KDiag [$"BOARD"; $"1"] /\
   decode (drop_last ($"DBE GETCFG" ++ [CR])) = KGetCfg [].
 Proof. vm_compute. repeat split. Qed.
+
+(* the four GETDBE* queries, for EVERY output name (the six existing ones and unknown ones), every
+   device state satisfying the invariant (four boards, register lengths), any board status *)
+Theorem C02_dbesm_getdbe : forall d r name, Inv d -> exists s, h_get_dbe d r [name] = (d, OReply s).
+Proof. exact db_getdbe_answered. Qed.
+Print Assumptions C02_dbesm_getdbe.
